@@ -3,7 +3,7 @@
    [parse_raw false], [dump false], [value false], [describe false], [asn1_file false] model the
    code as it is now; the [true] variants model the code before the C13 repairs and appear only
    in the refutation witnesses at the end. *)
-From WI Require Import Lib.Base Lib.Info Lib.Time gen.Asn1Names Model.Der Proofs.Der Proofs.DerValues.
+From WI Require Import Lib.Base Lib.Info Lib.Time gen.Asn1Names Model.Der Model.Render Proofs.Der Proofs.DerValues Proofs.DerPrint.
 Open Scope N_scope.
 
 (* ---------- structure ---------- *)
@@ -93,6 +93,45 @@ Proof.
   exists ts. repeat split; try assumption. cbn [i_children]. apply dump_forest_shape.
 Qed.
 Print Assumptions C13_dump_mirrors_input.
+
+(* ---------- the printed report (the dump sent through printInfo of cmd/decipher/main.go, Model/Render.v) ---------- *)
+
+(* End to end, for every well-formed forest within the nesting limit: the text the command prints for the
+   file is the "ASN.1 data" line followed by exactly one line per element, in document order, and line k
+   is indented by two blanks for each nesting level of the k-th element below that first line (tlv_depths:
+   the depth of every element in document order). The correspondence check compares this text, line by
+   line, with what the real command prints (op clidump). *)
+Theorem C13_printed_dump_mirrors : forall ts der,
+  forest_ok ts = true -> ts <> [] -> forest_height ts <= max_depth ->
+  i_desc der = bs "unknown ASN.1 data" ->
+  let i := asn1_file false der (encode_forest ts) in
+  let ls := lines_of sanitize i 0 in
+  print_info i 0 = flat_map (fun l => l ++ [10]) ls /\
+  length ls = S (forest_nodes ts) /\
+  nth 0 ls [] = bs "ASN.1 data" /\
+  lines_indented (0%nat :: map (fun k => (2 + 2 * k)%nat) (flat_map (tlv_depths 0) ts)) ls = true.
+Proof. exact printed_dump_mirrors. Qed.
+Print Assumptions C13_printed_dump_mirrors.
+
+Example C13_printed_dump_nonvacuous :
+  let ts := [Cons 0 16 [Cons 0 16 [Prim 0 5 []]; Prim 0 2 [7]]] in
+  forest_ok ts = true /\ forest_height ts <= max_depth /\
+  flat_map (tlv_depths 0) ts = [0; 1; 2; 1]%nat /\
+  print_info (describe false (encode_forest ts)) 0 =
+    bs "ASN.1 data" ++ [10] ++ bs "  SEQUENCE" ++ [10] ++ bs "    SEQUENCE" ++ [10] ++ bs "      NULL: null" ++ [10] ++ bs "    INTEGER: 7" ++ [10].
+Proof. vm_compute. repeat split; try discriminate; reflexivity. Qed.
+
+(* Conversely, for arbitrary bytes: a printed report that starts with "ASN.1 data" is the printed dump of
+   the forest whose DER encoding is the input - no line is missing, added or indented otherwise. *)
+Theorem C13_printed_dump_of_input : forall data,
+  bytes_ok data = true -> i_desc (describe false data) = bs "ASN.1 data" ->
+  exists ts, encode_forest ts = data /\
+    let ls := lines_of sanitize (describe false data) 0 in
+    print_info (describe false data) 0 = flat_map (fun l => l ++ [10]) ls /\
+    length ls = S (forest_nodes ts) /\
+    lines_indented (0%nat :: map (fun k => (2 + 2 * k)%nat) (flat_map (tlv_depths 0) ts)) ls = true.
+Proof. exact printed_dump_of_input. Qed.
+Print Assumptions C13_printed_dump_of_input.
 
 (* labels: a constructed element is shown by its label alone, a primitive one as "label: value";
    the label of a universal tag is its X.680 name, of anything else the decimal tag number *)
